@@ -797,3 +797,25 @@ Lemma incr_one_section_same_programs :
   map snd (sh_log (fst (run shared local (tstep DAY repaired) (init 1000 incr_progs) [0; 1; 0]%nat)))
   = [OInt 5; OInt 6; OInt 7].
 Proof. vm_compute. reflexivity. Qed.
+
+(* ------------------------------------------------------------------------------------------ *)
+(* RemoveFromList racing AppendToList                                                          *)
+(* ------------------------------------------------------------------------------------------ *)
+
+(* caller 0: Append a; Append m; Remove m.   caller 1: Append u; GetList.
+   schedule 0 0 | 0 = Remove scans [a,m] -> copy [a] | 1 = Append u -> [a,m,u] | 0 = writes [a] back | 1 = GetList -> [a]: u is lost *)
+Definition su : scalar := SStr [117].
+Definition sm : scalar := SStr [109].
+Definition listrace_progs : list (list op) :=
+  [[KAppend kA sa; KAppend kA sm; KRemove kA sm]; [KAppend kA su; KGetList kA]].
+Definition listrace_sched : list nat := [0; 0; 0; 1; 0; 1]%nat.
+
+Lemma two_section_remove_refuted :
+  ~ legal DAY 1000
+      (sh_log (fst (run shared local6 (tstep_two_section_remove DAY repaired) (init6 1000 listrace_progs) listrace_sched))).
+Proof. unfold legal. vm_compute. intros H. discriminate H. Qed.
+
+Lemma one_section_remove_same_schedule :
+  map snd (sh_log (fst (run shared local (tstep DAY repaired) (init 1000 listrace_progs) listrace_sched)))
+  = [OOk; OOk; OOk; OOk; OVal (VList [sa; su])].
+Proof. vm_compute. reflexivity. Qed.
